@@ -280,10 +280,50 @@ fn many_groups() -> BoxedStrategy<Node> {
     prop::collection::vec(g, 8..13).prop_map(Node::Cat).boxed()
 }
 
+/// trees of capturing groups with possibly-empty members: the shapes in which nesting of zero-length groups matters
+fn nested_groups() -> BoxedStrategy<Node> {
+    let lit = prop::sample::select(vec!['a', 'b', 'c']).prop_map(Node::Lit);
+    let leaf = prop_oneof![
+        4 => lit.clone(),
+        2 => lit.clone().prop_map(|l| Node::cap(Node::rep(l, 0, Some(1), true))),
+        2 => lit.clone().prop_map(|l| Node::cap(Node::rep(l, 0, None, true))),
+        1 => lit.clone().prop_map(|l| Node::cap(Node::Alt(vec![l, Node::Empty]))),
+        1 => lit.clone().prop_map(|l| Node::cap(Node::Alt(vec![Node::Empty, l]))),
+        1 => Just(Node::cap(Node::Empty)),
+        2 => lit.clone().prop_map(Node::cap),
+        1 => lit.clone().prop_map(|l| Node::rep(Node::cap(l), 0, Some(1), true)),
+    ];
+    leaf.prop_recursive(4, 16, 3, |inner| {
+        prop_oneof![
+            3 => prop::collection::vec(inner.clone(), 1..4).prop_map(|v| Node::cap(Node::Cat(v))),
+            1 => prop::collection::vec(inner.clone(), 2..4).prop_map(Node::Cat),
+            1 => prop::collection::vec(inner, 2..3).prop_map(|v| Node::cap(Node::Alt(v))),
+        ]
+    })
+    .boxed()
+}
+
 impl Prop for C03 {
     type Case = AstCase;
     fn id(&self) -> &'static str {
         "C03"
+    }
+    fn enumerations(&self, tier: Tier) -> Vec<(String, String, Box<dyn Iterator<Item = AstCase> + Send>)> {
+        // every arrangement of capturing groups over a, b? and the empty term up to a size bound
+        let cfg = crate::enumerate::EnumCfg {
+            atoms: vec![Node::Lit('a'), Node::rep(Node::Lit('b'), 0, Some(1), true), Node::Empty],
+            quants: vec![],
+            cap: true,
+            noncap: false,
+            alt: false,
+            backref: false,
+        };
+        let size = tier.pick(9, 10);
+        let nodes: Vec<Node> = crate::enumerate::up_to(&cfg, size).into_iter().filter(|n| n.n_groups() >= 2).collect();
+        let inputs = crate::enumerate::inputs(&['a', 'b'], 3);
+        let scope = format!("all {} ASTs of size <= {} built from a, b?, the empty term, sequence and capturing groups (>= 2 groups) x all {} inputs over {{a,b}} of length <= 3", nodes.len(), size, inputs.len());
+        let it = nodes.into_iter().map(move |node| AstCase { node, flags: String::new(), inputs: Inputs::Lit(inputs.clone()) });
+        vec![("exhaustive-group-nesting".into(), scope, Box::new(it))]
     }
     fn parts(&self, tier: Tier) -> Vec<Part<AstCase>> {
         let mut cfg = capture_cfg();
@@ -295,6 +335,11 @@ impl Prop for C03 {
         vec![
             Part { name: "random".into(), strategy: s, cases: tier.pick(250_000, 5_000_000) },
             Part { name: "many-groups".into(), strategy: s2, cases: tier.pick(40_000, 500_000) },
+            Part {
+                name: "nested-groups".into(),
+                strategy: (nested_groups(), gen::raw_inputs(8, 6)).prop_map(|(node, inputs)| AstCase { node, flags: String::new(), inputs: Inputs::Raw(inputs) }).boxed(),
+                cases: tier.pick(100_000, 2_000_000),
+            },
         ]
     }
     fn check(&self, case: &AstCase, ctx: &mut Ctx) -> Verdict {
